@@ -55,7 +55,8 @@ UNITS = {
 for st in range(20, 27):
     UNITS[st] = [({"processed_messages"}, True)]
 STEP_FN_CASE = {1: 27, 15: 28, 16: 29, 17: 25}      # step function -> the case that lists its own body
-CALLKIND_CASES = {"process_application": [0, 11], "process_commit": [1, 2, 3], "process_proposal": [4, 5, 6], "process_welcome": [12, 13],
+CALLKIND_CASES = {"process_application": [0], "process_own_message": [11], "process_commit": [1], "process_own_commit": [3, 30],
+                  "process_commit_evicted": [2], "decline_welcome": [15], "process_proposal": [4, 5, 6], "process_welcome": [12, 13],
                   "accept_welcome": [14], "create_message": [16], "create_group": [17], "add_members": [18], "remove_members": [19],
                   "update_group_data": [20], "self_update": [21], "leave_group": [22], "merge_pending_commit": [23],
                   "clear_pending_commit": [24], "process_other": [7, 8, 9], "process_commit_rollback": [10]}
